@@ -276,7 +276,7 @@ def routed_to_exit(b, o, br, scrutinee_ok):
 def check_failure(ctx, jp):
     rule = "failure-discipline"
     sites = exit_sites(jp)
-    ctx.floor(rule, len(sites), 8, "process::exit sites")
+    ctx.floor(rule, len(sites), 5, "process::exit sites")
     zero = []
     n = 0
     for b, bb, t in sites:
